@@ -101,3 +101,12 @@ def errorPercentage (s f t : Int) : Rat :=
   if attempts = 0 then 0 else F64.div (F64.ofInt (f + t)) (F64.ofInt attempts)
 
 end CM.Cons
+
+namespace CM.Cons
+/-- the collectors as the stat factory and the SLO factory create them -/
+def All.new (n : Nat) (dur : Int) (pn : Nat) (pdur : Int) (psize : Nat) (maxHealthy : Int) : All :=
+  { run := RunStats.new n dur pn pdur psize, fb := FbStats.new n dur, slo := { maxHealthy := maxHealthy } }
+
+/-- feed a history of delivered callbacks -/
+def All.feed (a : All) (emits : List Emit) : All := emits.foldl All.onEmit a
+end CM.Cons
